@@ -57,6 +57,7 @@ CHECKS = {
     },
     "C06": {
         "pkg": "c06",
+        "parts": [{"pkg": "c06"}, {"pkg": "c06l", "shards": 4}],
         "rule": "rapid state machine over the request handler and transmit-timestamp update through the verif hooks.",
         "assumptions": ["updates for an exchange whose (client, rx) key was reused by a later exchange are not issued (keying ambiguity that needs a backward clock step)"],
         "timeout_quick": 400, "timeout_thorough": 1800,
